@@ -331,7 +331,8 @@ impl Run {
         let wall = self.start.elapsed().as_secs_f64();
         let mut sh = self.sh.lock().unwrap();
         let known = load_known(&self.root);
-        sh.violations.sort_by(|a, b| a.0.cmp(&b.0));
+        // shortest counterexample first, then by shard (deterministic work-split order)
+        sh.violations.sort_by(|a, b| (a.1.case.len(), a.0).cmp(&(b.1.case.len(), b.0)));
 
         let mut real: Vec<&Violation> = Vec::new();
         let mut known_hits: BTreeMap<String, (u64, String)> = BTreeMap::new();
